@@ -9,7 +9,7 @@ CLAIMS = {
         "sample dimension of that same (augmented) matrix; V is VT conjugate-transposed in both SVD wrappers, reconstruction "
         "contracts with conj(components) and projection with plain components (EOF, SparsePCA, ExtendedEOF); the ascending svds "
         "branch re-sorts U, s, VT by one descending argsort and every truncation keeps a prefix; scores=U*s, norms=s, components=V; "
-        "Hilbert and Extended variants reach the same routine. ExtendedEOF's inner EOF centres the embedded matrix and applies neither standardisation nor latitude weights again; the exponential padding added before the Hilbert transform is cut off again under the same condition, keeping [n, 2n). No accessor rescales the stored components / scores in place. The delay-embedded matrix keeps exactly N - (embedding - 1) * tau rows (slice stop compared as a polynomial normal form).",
+        "Hilbert and Extended variants reach the same routine. ExtendedEOF's inner EOF centres the embedded matrix and applies neither standardisation nor latitude weights again; the exponential padding added before the Hilbert transform is cut off again under the same condition, keeping [n, 2n). No accessor rescales the stored components / scores in place. The delay-embedded matrix keeps exactly N - (embedding - 1) * tau rows (slice stop compared as a polynomial normal form). The explained variance ratio divides the stored explained variance by the stored total variance and nothing else touches either value (no floor / clip on the denominator); the series reaches ExtendedEOF's delay embedding in the caller's order (no re-ordering / selection along the sample dimension).",
         "note": "Necessary structural clauses only. Not decided: orthonormality, eigenvalue equality with an independent solver, "
         "Eckart-Young optimality, accuracy of the randomised path, Hilbert transform arithmetic. Trusted: np.linalg.svd descending / "
         "svds ascending order, default ddof=0.",
@@ -21,7 +21,7 @@ CLAIMS = {
         "stage the inverse reads what the forward wrote for the same role: Stacker stack/unstack and rename pairs on sample_name/feature_name with "
         "dims_mapping, Dataset variable-level name, dispatch on the stored type name, dimension order restored on every unstack path; Concatenator "
         "splits with the offsets it concatenated with and re-attaches the recorded coordinates; MultiIndexConverter records/restores exactly the "
-        "converted dimensions with the right reference per inverse; DimensionRenamer inverts its own mapping. List items reach xr.concat with their own sample labels and are joined by label (no override join, raw-array concatenation or sample relabelling); the two MultiIndex coordinate stores are distinct objects; the MultiIndex inverse re-attaches the labels and rebuilds the index. The level names recorded for a serialised MultiIndex coordinate are the index's own names. Stacker.transform stacks with the dimension lists recorded at fit; mappings keyed by the stringified list position are walked in insertion or numeric order. Stacker.transform compares the labels along every feature dimension in order with the recorded ones and brings a Dataset into the variable / dimension layout recorded at fit; the unstack variants rename the stacked sample name only where it is a dimension of the data. The Dataset inverse un-stacks the feature dimension only (no bare unstack / squeeze outside the legacy fallback); reconstructions carry the fitted coordinate order; internal dimension names are numbered from the sample dimensions given to fit.",
+        "converted dimensions with the right reference per inverse; DimensionRenamer inverts its own mapping. List items reach xr.concat with their own sample labels and are joined by label (no override join, raw-array concatenation or sample relabelling); the two MultiIndex coordinate stores are distinct objects; the MultiIndex inverse re-attaches the labels and rebuilds the index. The level names recorded for a serialised MultiIndex coordinate are the index's own names. Stacker.transform stacks with the dimension lists recorded at fit; mappings keyed by the stringified list position are walked in insertion or numeric order. Stacker.transform compares the labels along every feature dimension in order with the recorded ones and brings a Dataset into the variable / dimension layout recorded at fit; the unstack variants rename the stacked sample name only where it is a dimension of the data. The Dataset inverse un-stacks the feature dimension only (no bare unstack / squeeze outside the legacy fallback); reconstructions carry the fitted coordinate order; internal dimension names are numbered from the sample dimensions given to fit. The MultiIndex is rebuilt from the levels of the remembered index itself, not from the coordinates lying along the dimension.",
         "note": "Necessary structural clauses only. Not decided: value-at-label equality, xarray's stack/unstack behaviour for exotic indexes, sortedness "
         "after unstack. Label paths for unseen data are decided under C05, NaN re-insertion under C06.",
         "technique": "call-sequence extraction against a table literal, writer/reader agreement by provenance, match-dispatch comparison",
@@ -40,7 +40,7 @@ CLAIMS = {
         "whitener pattern map are patterns and may not serve as projection weights, and the number of forward stages on the data matches the basis of "
         "the components; the cross rotator stores its vectors in whitened PC space; every per-mode factor the rotators' fit applies to the model's "
         "score chain and stores (singular values, norms, sign) is applied by transform with the same operator, per field; no list accumulator "
-        "initialised before a loop is rebound inside it (positive fixture fires each run). Rotator transform re-sorts its projections exactly as _sort_by_variance re-sorts the stored entries. What reaches the projection / prediction algorithm has passed every forward stage of its field; rotated vectors are lowered through both pattern inverses before the rotation; fit and transform agree on the per-mode factors in both directions; every result is re-sorted; no accessor rescales stored arrays in place. The rotators' transform rotates projections with the inverse conjugate transpose obtained through the shared helper (as fit does). The stored sign convention multiplies the re-sorted projections, once.",
+        "initialised before a loop is rebound inside it (positive fixture fires each run). Rotator transform re-sorts its projections exactly as _sort_by_variance re-sorts the stored entries. What reaches the projection / prediction algorithm has passed every forward stage of its field; rotated vectors are lowered through both pattern inverses before the rotation; fit and transform agree on the per-mode factors in both directions; every result is re-sorted; no accessor rescales stored arrays in place. The rotators' transform rotates projections with the inverse conjugate transpose obtained through the shared helper (as fit does). The stored sign convention multiplies the re-sorted projections, once. The label path of transform reads what this call recorded and has no fall-back to fit-time coordinates (shared with C05).",
         "note": "Necessary structural clauses only. Not decided: numerical equality, tolerance, sign identity as values. Field-index and stage-order "
         "clauses of transform are decided under C03/C09; the rotation-matrix pairing under C11; label paths under C05.",
         "technique": "pattern/weight and basis typing of dot-product operands from stage provenance, fit-vs-transform factor agreement by source signatures, AST lint with fixture",
@@ -68,7 +68,7 @@ CLAIMS = {
         "text": "Every module, function and call site of xeofs is enumerated: no dimension is addressed through the "
         "literals 'sample'/'feature' (constants, keywords, attribute access), no callee with a literal dimension "
         "default is called without the configured names, and Stacker canonicalises to (sample_name, feature_name). "
-        "This is the necessary structural clause of naming-independence; exhaustive over the finite site space. List items are aligned by sample label whatever order each stores its samples in; Stacker inverses change labels only by rename / unstack. Rotated loadings return to model space pca -> whitener (label-based products pair labels of the same space). Per-element bookkeeping keyed '0', '1', ... is walked in list order. Stacker.transform stacks with the recorded dimension lists and the recorded Dataset layout.",
+        "This is the necessary structural clause of naming-independence; exhaustive over the finite site space. List items are aligned by sample label whatever order each stores its samples in; Stacker inverses change labels only by rename / unstack. Rotated loadings return to model space pca -> whitener (label-based products pair labels of the same space). Per-element bookkeeping keyed '0', '1', ... is walked in list order. Stacker.transform stacks with the recorded dimension lists and the recorded Dataset layout. get_dims reports the sample dimensions in the order the user gave, never in the data's own dimension order.",
         "note": "Decides the NAMES clauses only. Not decided: numerical invariance under permutations/partitions, sign "
         "determinism as values. Trusted: ast, the class/constructor-flow resolver, the one table exemption (Scaler.dims keys).",
         "technique": "AST lint over resolved program (literal dimension designators, call-site default binding, constructor-parameter flow)",
@@ -98,7 +98,7 @@ CLAIMS = {
         "pair the property fixes, does not accept alpha, drops it from the stored parameters, and resolves every method of "
         "its general class to the same function (C3 MRO, 12 class pairs incl. MCA rotators); alpha[i] reaches whitener i; "
         "all eight Whitener/PCA maps return their argument untouched on the identity branch; n_modes='all' resolves to the rank; "
-        "an interval analysis of the delay-embedding slice bound shows no 'slice(None, -0)'. ExtendedEOF's inner EOF does not repeat standardisation / weighting (embedding=1 equals EOF); named classes forward every shared option to the general class. With a single embedding the sample cut keeps all samples for every delay (polynomial normal form).",
+        "an interval analysis of the delay-embedding slice bound shows no 'slice(None, -0)'. ExtendedEOF's inner EOF does not repeat standardisation / weighting (embedding=1 equals EOF); named classes forward every shared option to the general class. With a single embedding the sample cut keeps all samples for every delay (polynomial normal form). EOF's explained variance keeps the second-moment convention s**2/(N-1) that the coincidences compare against (shared with C01).",
         "note": "Necessary structural clauses only. Not decided: SparsePCA(no penalty)=EOF, MCA(X,X)=EOF, Complex(real)=real, "
         "multi-set vs cross-set CCA (numerical coincidences). Trusted: constructor-flow resolver, documented domains embedding>=1, tau>=0.",
         "technique": "constructor-parameter flow + C3 MRO comparison + guard/return analysis + interval abstract interpretation of a slice bound",
@@ -109,7 +109,7 @@ CLAIMS = {
         "exactly the stored importance (explained variance / squared covariance); _sort_by_variance covers every entry with a mode "
         "dimension except the index; 'sorted' is reset before any result is stored, set after sorting, guards idempotence, transform "
         "re-sorts iff sorted, sorting is reachable only via _post_compute behind the compute flag; modes_sign multiplies all members of "
-        "its factor group in fit and transform; pseudo-norms use N-1. The importance the rotated modes are ordered by is computed from the rotated loadings; the inverse of the rotation matrix is transposed (output dimensions reversed); the kernels return a product with the rotation matrix as returned, not one formed before its last update. modes_sign is applied to the re-sorted projections, once on every path. The cross-set rotator treats the loadings / scores of the two fields alike (sibling rule).",
+        "its factor group in fit and transform; pseudo-norms use N-1. The importance the rotated modes are ordered by is computed from the rotated loadings; the inverse of the rotation matrix is transposed (output dimensions reversed); the kernels return a product with the rotation matrix as returned, not one formed before its last update. modes_sign is applied to the re-sorted projections, once on every path. The cross-set rotator treats the loadings / scores of the two fields alike (sibling rule). The norms stored for rotated modes are sqrt(rotated explained variance * (N-1)) - a missing sample-count factor is a violation, not an analysis error.",
         "note": "Necessary structural clauses only. Not decided: unitarity of R, conserved variance sum, Varimax criterion, reconstruction "
         "equality as numbers (the numerical core of _varimax/_promax is not analysed).",
         "technique": "def-use provenance (pairing through a helper call), typestate of a flag over CFG dominators, loop-condition exhaustiveness, sibling agreement",
@@ -153,7 +153,7 @@ CLAIMS = {
         "draw exists and generator constructors are seeded; every callee taking random_state receives it wherever a seed is in scope "
         "(unless pinned to the exact solver); each match on the solver has exactly the documented cases plus a raising default; the "
         "sign multiplier is computed from VT along the feature axis and multiplies U and V; the two wrappers agree on solver keyword "
-        "sets, on the svds re-sort and on the canonical threshold count n_pre - #(cum >= f) + 1 with N-1/ddof=1. Only the number of modes, the seed (and svds' solver) are imposed over the user's solver_kwargs, everything else the wrappers set is a default the user's dict overrides; the exact solver runs exactly when the solver policy flag says so. No generator object created in a constructor is kept on the model or handed to the helper objects it builds. A seed is never tested for truth (0 is a valid seed).",
+        "sets, on the svds re-sort and on the canonical threshold count n_pre - #(cum >= f) + 1 with N-1/ddof=1. Only the number of modes, the seed (and svds' solver) are imposed over the user's solver_kwargs, everything else the wrappers set is a default the user's dict overrides; the exact solver runs exactly when the solver policy flag says so. No generator object created in a constructor is kept on the model or handed to the helper objects it builds. A seed is never tested for truth (0 is a valid seed). The modes counted as reaching a variance fraction are exactly those of the one order comparison cumulative >= f (nothing or-ed to it, no tolerance).",
         "note": "Necessary structural clauses only. Not decided: minimality of the threshold count as arithmetic on values, agreement of "
         "exact and randomised results, bit-identity as values. Trusted: table of solver seed keywords (sklearn/scipy/dask APIs).",
         "technique": "def-use provenance through dict merges and tuple unpacking, call-site parameter binding, match exhaustiveness, sibling cross-check of extracted facts",
@@ -174,7 +174,7 @@ CLAIMS = {
         "its uses); Scaler.transform's arithmetic with fitted arrays is dominated by a raising dimension check; 30+ role guards exist, raise under the "
         "right condition and precede the use they protect: n_modes sanity (both SVD wrappers), init_rank_reduction range, rank, negative alpha, unknown "
         "solver, item counts, transform dimensions / feature coordinates, empty dims, MultiIndex, name clash, 2-D dims, dim type, 'X or Y required', "
-        "cross-set sample count, concatenator and multi-set view validation. Every fitted array Scaler.transform combines with the data is covered by the dimension check; init_rank_reduction is validated exactly when n_modes is a variance fraction; the bounds of the n_modes validation (int < 1, float outside (0, 1], other strings) and the Stacker's container-type check are in place. In every _inverse_transform_algorithm the stored array contracted with a score argument is selected by that argument's own mode labels. Feature labels of transform data are compared in order with the recorded ones. A MultiIndex along a feature dimension is compared (in order) with the fitted one before it is replaced by positions; feature labels are compared as index labels; n_modes is validated at construction or at fit by every single-set model; multi-set CCA transform checks the number of views.",
+        "cross-set sample count, concatenator and multi-set view validation. Every fitted array Scaler.transform combines with the data is covered by the dimension check; init_rank_reduction is validated exactly when n_modes is a variance fraction; the bounds of the n_modes validation (int < 1, float outside (0, 1], other strings) and the Stacker's container-type check are in place. In every _inverse_transform_algorithm the stored array contracted with a score argument is selected by that argument's own mode labels. Feature labels of transform data are compared in order with the recorded ones. A MultiIndex along a feature dimension is compared (in order) with the fitted one before it is replaced by positions; feature labels are compared as index labels; n_modes is validated at construction or at fit by every single-set model; multi-set CCA transform checks the number of views. At the public inverse_transform entry a per-mode entry that meets the given scores arithmetically is selected by the scores' own mode labels first (an aligned product would inner-join unknown modes away).",
         "note": "Necessary structural clauses only. Not decided: which exception type; that no numbers come out for every malformed call; rejections that "
         "xarray itself performs (unknown dimension names / mode labels).",
         "technique": "must-precede (dominator) analysis of guards, raise-condition role matching, call-site binding",
@@ -184,7 +184,7 @@ CLAIMS = {
         "full re-ordering coverage and the 'sorted' typestate incl. reset at fit; fit and transform obtain coefficients from one routine with "
         "data and patterns both mapped into PC space and stored patterns mapped back; the kernel returns eigenvalues, -1/log|lambda| and "
         "2*pi/arg(lambda) of the eigen-solver's values and fit stores each output under the matching name; the feedback matrix has the form "
-        "(lead^H lag)(lag^H lag)^-1 with conjugate transposes. Modes are ordered by the standard deviation of the POP coefficients.",
+        "(lead^H lag)(lag^H lag)^-1 with conjugate transposes. Modes are ordered by the standard deviation of the POP coefficients. The series reaches the lag-1 kernel in the caller's order: no re-ordering, selection or re-gridding along the sample dimension on POP's fit path.",
         "note": "Small structural part only. Not decided: the eigen-relation A p = lambda p, conjugate pairing, the coefficient formula "
         "(Storch eq. 19), oscillator recovery - arithmetic on values.",
         "technique": "def-use provenance through apply_ufunc kernels (output index to container key), typestate, matmul-chain shape",
@@ -194,7 +194,7 @@ CLAIMS = {
         "from the seed parameter, draws n_samples out of n_samples with replacement, the draw selects along the sample dimension of the model's "
         "preprocessed data, the member is fitted on that resample and projects the original data; the alignment sign derives from member and model "
         "scores along samples and multiplies both components and scores; members are labelled 1..n_bootstraps on all four results; the model's arrays "
-        "are stored as copies and the model's objects are not re-fitted. The generator is re-created from the seed inside fit; the four results are labelled n = 1..n_bootstraps (through helpers). The member model's effective constructor switches: center True, standardize / use_coslat False.",
+        "are stored as copies and the model's objects are not re-fitted. The generator is re-created from the seed inside fit; the four results are labelled n = 1..n_bootstraps (through helpers). The member model's effective constructor switches: center True, standardize / use_coslat False. The alignment sign is the sign of the real part of a centred (Pearson), Hermitian product of member and model scores.",
         "note": "Necessary structural clauses only. Not decided: that members are EOFs of the resample numerically, non-negative correlation, variance bounds.",
         "technique": "def-use provenance of the resampling pipeline (seed, draw, selection, fit, projection), ownership provenance",
     },
@@ -209,4 +209,4 @@ for _p in ["C01", "C02", "C03", "C04", "C05", "C06", "C08", "C09", "C10", "C11",
     if _p not in CLAIMS:
         NOT_APPLICABLE[_p] = PENDING
 
-FIX_COMMITS: list[str] = ['66ece4b', 'ed076f6', '9a78ace', 'cf5abcd', '44e0064', '50d9a93', '83c3286', 'a1f053b', 'f5a50f1', 'f91da99', '5bc6ab8', '535dacf', '4fafdb0', 'f5c4825', 'b539edf', '6aa614c', '5bf1e4c', '7d40fdd', '06b897f', '456072f', '3fe121c', '76a2a6e', '3fca62d', '40b40f5', '26afd29', '1cd4dd0', 'a73d8de', 'ecd49ca', '80098d5', 'ed1bc9f', '8ac783d', '6ca6be5', '0e40cc3', '2b55b4e', 'caffa9a', 'a8e7280', 'cadc9b9']
+FIX_COMMITS: list[str] = ['66ece4b', 'ed076f6', '9a78ace', 'cf5abcd', '44e0064', '50d9a93', '83c3286', 'a1f053b', 'f5a50f1', 'f91da99', '5bc6ab8', '535dacf', '4fafdb0', 'f5c4825', 'b539edf', '6aa614c', '5bf1e4c', '7d40fdd', '06b897f', '456072f', '3fe121c', '76a2a6e', '3fca62d', '40b40f5', '26afd29', '1cd4dd0', 'a73d8de', 'ecd49ca', '80098d5', 'ed1bc9f', '8ac783d', '6ca6be5', '0e40cc3', '2b55b4e', 'caffa9a', 'a8e7280', 'cadc9b9', '4611075', 'b9d4fb1']
